@@ -109,3 +109,46 @@ Fixpoint all2 {X Y} (f : X -> Y -> bool) (a : list X) (b : list Y) : bool :=
   end.
 
 Definition check_hcase (k : hcase) : bool := all2 reply_matches (h_replies k) (h_observed k).
+
+(* ---- proxy acquisition along histories of a context's name table ---------------------------------------
+   ops in order; a lookup carries what the implementation's proxy offered (forwarding methods of the
+   blocking proxy), or None when the lookup raised "unknown RPC object".  Creation carries whether the
+   implementation created the object (false: duplicate name or the constructor refused). *)
+Inductive rcop :=
+| KCreate (n : name) (c : cls) (created : bool)
+| KRemove (n : name)
+| KLookup (n : name) (observed : option (list name)).
+
+Definition rc_reg := registry unit unit.
+
+Definition rc_behave (c : cls) (n : name) (a : unit) (i : list name) : list name * unit := (i, tt).
+
+Fixpoint rc_check (g : rc_reg) (l : list rcop) : bool :=
+  match l with
+  | [] => true
+  | KCreate n c created :: r =>
+      let g' := rstep unit unit unit (fun _ _ => true) rc_behave g (RCreate n c []) in
+      let did := match bound unit unit g n, bound unit unit g' n with None, Some _ => true | _, _ => false end in
+      Bool.eqb did created && rc_check g' r
+  | KRemove n :: r => rc_check (rstep unit unit unit (fun _ _ => true) rc_behave g (RRemove n)) r
+  | KLookup n obs :: r =>
+      match rlookup unit unit g n, obs with
+      | Some ms, Some ms' => set_eqb ms ms'
+      | None, None => true
+      | _, _ => false
+      end && rc_check g r
+  end.
+
+Definition check_rcase (l : list rcop) : bool := rc_check [] l.
+
+(* index of the first operation on which model and implementation disagree (for the report) *)
+Fixpoint rc_first_bad (g : rc_reg) (l : list rcop) (i : nat) : option nat :=
+  match l with
+  | [] => None
+  | o :: r => if rc_check g [o] then
+                rc_first_bad (match o with
+                              | KCreate n c _ => rstep unit unit unit (fun _ _ => true) rc_behave g (RCreate n c [])
+                              | KRemove n => rstep unit unit unit (fun _ _ => true) rc_behave g (RRemove n)
+                              | KLookup _ _ => g end) r (S i)
+              else Some i
+  end.
